@@ -40,6 +40,10 @@ def run(ctx):
     rule_grids(ctx, 'C07.R2')
     rule_schedule(ctx, 'C07.R3')
     rule_amplitude(ctx, 'C07.R4')
+    # the mask-frequency estimate and the masked extractions run with the caller's options: the first-IMF estimate is
+    # the masked sift's own first extraction only if it sees the same extrema / envelope options
+    from .c06 import rule_carrier_flow
+    rule_carrier_flow(ctx, 'C07.R5', only={'emd.sift.mask_sift', 'emd.sift.get_mask_freqs', 'emd.sift.get_next_imf_mask'})
 
 
 def _strip_shape(t):
